@@ -47,6 +47,7 @@ package html
 //@   requires ht != nil && tbl(ht.Table)
 //@   assigns heap[tabular.propertyImpl.properties], new(tabular.valueProperty), htab(ht).ErrorContainer.errors_, elemscap(htab(ht).ErrorContainer.errors_), ghost cbErrN, ghost cbErrLog, ghost cbCallN, ghost cbCallSelf, ghost cbCallOwner, ghost stage, ghost fires, ghost stageR, ghost firesR, ghost stageT, ghost stageC, ghost Wn, ghost Wchunk, ghost Wfailed, ht.template, ghost tplBound, ghost funcsGen, ghost funcsId, new(template.Template)
 //@   requires [writer-ok] !Wfailed
+//@   ensures [exactly-one-render-pass] stageT[htab(ht)] == old(stageT)[htab(ht)] + 2 @C13
 //@   ensures [error-list-grows-only-by-callback-errors] cbErrN >= old(cbErrN) && len(htab(ht).ErrorContainer.errors_) == old(len(htab(ht).ErrorContainer.errors_)) + (cbErrN - old(cbErrN)) @C14,C11
 //@   ensures [table-still-wellformed] tbl(ht.Table) @C09,C14
 //@   ensures [failing-writer-surfaces] Wfailed ==> result != nil @C15
